@@ -972,4 +972,151 @@ theorem cross3_self (a : P3) : cross3 a a = (0, 0, 0) := by
   simp only [cross3, Prod.mk.injEq]; refine ⟨by ring, by ring, by ring⟩
 
 
+
+theorem normL_flip (l : Line) : normL (flipL l) = normL l := by
+  obtain ⟨x, y⟩ := l
+  simp only [normL, flipL]
+  by_cases h1 : x ≤ y <;> by_cases h2 : y ≤ x <;> simp [h1, h2] <;> omega
+
+theorem normL_eq (l l' : Line) (h : normL l = normL l') : l = l' ∨ l = flipL l' := by
+  obtain ⟨x, y⟩ := l; obtain ⟨x', y'⟩ := l'
+  simp only [normL, flipL] at h ⊢
+  by_cases h1 : x ≤ y <;> by_cases h2 : x' ≤ y' <;> simp [h1, h2] at h <;> simp [h.1, h.2]
+
+theorem mem_pathLines (ns : List Int) (e : Line) (h : e ∈ pathLines ns) : e.1 ∈ ns ∧ e.2 ∈ ns := by
+  induction ns with
+  | nil => simp [pathLines] at h
+  | cons a t ih =>
+    cases t with
+    | nil => simp [pathLines] at h
+    | cons b t' =>
+      simp only [pathLines, List.mem_cons] at h
+      rcases h with rfl | h
+      · simp
+      · have := ih h
+        exact ⟨List.mem_cons_of_mem _ this.1, List.mem_cons_of_mem _ this.2⟩
+
+/-- if all candidates touching `prev` are copies of the unordered pair `k` and there is one, `pick`
+    finds it, oriented away from `prev`, and removes exactly one copy of `k` -/
+theorem pick_of_unique (prev : Int) (k : Line) (rem : List (Nat × Line))
+    (hall : ∀ jl ∈ rem, (jl.2.1 = prev ∨ jl.2.2 = prev) → normL jl.2 = k)
+    (hex : ∃ jl ∈ rem, jl.2.1 = prev ∨ jl.2.2 = prev) :
+    ∃ r rest, pick prev rem = some (r, rest) ∧ r.line.1 = prev ∧ normL r.line = k
+      ∧ (rem.map (fun jl => normL jl.2)).Perm (k :: rest.map (fun jl => normL jl.2)) := by
+  induction rem with
+  | nil => obtain ⟨jl, hm, _⟩ := hex; cases hm
+  | cons a t ih =>
+    obtain ⟨j, l⟩ := a
+    simp only [pick]
+    by_cases h1 : l.1 = prev
+    · refine ⟨⟨j, l, false⟩, t, by simp [h1], h1, hall (j, l) (by simp) (Or.inl h1), ?_⟩
+      simp only [List.map_cons]
+      rw [hall (j, l) (by simp) (Or.inl h1)]
+    · by_cases h2 : l.2 = prev
+      · refine ⟨⟨j, flipL l, true⟩, t, by simp [h1, h2], by simp [flipL, h2], ?_, ?_⟩
+        · rw [normL_flip]; exact hall (j, l) (by simp) (Or.inr h2)
+        · simp only [List.map_cons]
+          rw [hall (j, l) (by simp) (Or.inr h2)]
+      · have hex' : ∃ jl ∈ t, jl.2.1 = prev ∨ jl.2.2 = prev := by
+          obtain ⟨jl, hm, hc⟩ := hex
+          rcases List.mem_cons.mp hm with rfl | hm
+          · simp only at hc; tauto
+          · exact ⟨jl, hm, hc⟩
+        obtain ⟨r, rest, hp, hr1, hr2, hperm⟩ := ih (fun jl hm => hall jl (List.mem_cons_of_mem _ hm)) hex'
+        refine ⟨r, (j, l) :: rest, by simp [h1, h2, hp], hr1, hr2, ?_⟩
+        simp only [List.map_cons]
+        exact (List.Perm.cons _ hperm).trans (List.Perm.swap _ _ _)
+
+/-- one step along a path with distinct nodes -/
+theorem pick_path (a b : Int) (t : List Int) (rem : List (Nat × Line)) (hab : a ≠ b) (ha : a ∉ b :: t)
+    (hperm : (rem.map (fun jl => normL jl.2)).Perm ((pathLines (a :: b :: t)).map normL)) :
+    ∃ r rest, pick a rem = some (r, rest) ∧ r.line = (a, b)
+      ∧ (rest.map (fun jl => normL jl.2)).Perm ((pathLines (b :: t)).map normL) := by
+  have hall : ∀ jl ∈ rem, (jl.2.1 = a ∨ jl.2.2 = a) → normL jl.2 = normL (a, b) := by
+    intro jl hm hc
+    have : normL jl.2 ∈ (pathLines (a :: b :: t)).map normL :=
+      hperm.mem_iff.mp (List.mem_map.mpr ⟨jl, hm, rfl⟩)
+    obtain ⟨e, he, hne⟩ := List.mem_map.mp this
+    simp only [pathLines, List.mem_cons] at he
+    rcases he with rfl | he
+    · exact hne.symm
+    · exfalso
+      have hmem := mem_pathLines _ _ he
+      rcases normL_eq _ _ hne.symm with h | h
+      · rw [h] at hc
+        rcases hc with hc | hc
+        · exact ha (hc ▸ hmem.1)
+        · exact ha (hc ▸ hmem.2)
+      · rw [h] at hc
+        simp only [flipL] at hc
+        rcases hc with hc | hc
+        · exact ha (hc ▸ hmem.2)
+        · exact ha (hc ▸ hmem.1)
+  have hex : ∃ jl ∈ rem, jl.2.1 = a ∨ jl.2.2 = a := by
+    have : normL (a, b) ∈ rem.map (fun jl => normL jl.2) :=
+      hperm.mem_iff.mpr (by simp [pathLines])
+    obtain ⟨jl, hm, hne⟩ := List.mem_map.mp this
+    refine ⟨jl, hm, ?_⟩
+    rcases normL_eq _ _ hne with h | h
+    · left; rw [h]
+    · right; rw [h]; simp [flipL]
+  obtain ⟨r, rest, hp, hr1, hr2, hperm'⟩ := pick_of_unique a (normL (a, b)) rem hall hex
+  refine ⟨r, rest, hp, ?_, ?_⟩
+  · rcases normL_eq _ _ hr2 with h | h
+    · exact h
+    · rw [h] at hr1; simp only [flipL] at hr1; exact absurd hr1.symm hab
+  · have h2 := hperm.symm.trans hperm'
+    simp only [pathLines, List.map_cons] at h2
+    exact (List.Perm.cons_inv h2).symm
+
+/-- `walk` follows a path with distinct nodes to its end -/
+theorem walk_path (nodes : List Int) (a : Int) (rem : List (Nat × Line)) (n : Nat)
+    (hnd : (a :: nodes).Nodup) (hn : rem.length ≤ n)
+    (hperm : (rem.map (fun jl => normL jl.2)).Perm ((pathLines (a :: nodes)).map normL)) :
+    ∃ out, walk n a rem = some out ∧ out.map (·.line) = pathLines (a :: nodes) := by
+  induction nodes generalizing a rem n with
+  | nil =>
+    simp only [pathLines, List.map_nil, List.perm_nil, List.map_eq_nil_iff] at hperm
+    subst hperm
+    exact ⟨[], by cases n <;> simp [walk], by simp [pathLines]⟩
+  | cons b t ih =>
+    have hab : a ≠ b := by
+      intro h; subst h; simp at hnd
+    have ha : a ∉ b :: t := (List.nodup_cons.mp hnd).1
+    obtain ⟨r, rest, hp, hr, hperm'⟩ := pick_path a b t rem hab ha hperm
+    have hlen := pick_length _ _ _ _ hp
+    cases n with
+    | zero => omega
+    | succ n' =>
+      obtain ⟨out', hw, hout'⟩ := ih b rest n' (List.nodup_cons.mp hnd).2 (by omega) hperm'
+      have hrem : rem ≠ [] := by intro h; subst h; simp at hlen
+      cases rem with
+      | nil => exact absurd rfl hrem
+      | cons x xs =>
+        refine ⟨r :: out', ?_, ?_⟩
+        · simp only [walk, hp]
+          rw [hr]
+          simp only [hw]
+        · simp [hout', hr, pathLines]
+
+theorem map_snd_enumFrom' {α : Type} (i : Nat) (l : List α) : (enumFrom' i l).map (·.2) = l := by
+  induction l generalizing i with
+  | nil => rfl
+  | cons x t ih => simp [enumFrom', ih]
+
+theorem pathLines_getLast (a : Int) (nodes : List Int) (hne : nodes ≠ []) :
+    ∃ z, (pathLines (a :: nodes)).getLast? = some z ∧ some z.2 = nodes.getLast? := by
+  induction nodes generalizing a with
+  | nil => exact absurd rfl hne
+  | cons b t ih =>
+    cases t with
+    | nil => exact ⟨(a, b), by simp [pathLines], by simp⟩
+    | cons c t' =>
+      obtain ⟨z, hz1, hz2⟩ := ih b (by simp)
+      refine ⟨z, ?_, ?_⟩
+      · simp only [pathLines] at hz1 ⊢
+        rw [List.getLast?_cons_cons]; exact hz1
+      · rw [hz2]; simp [List.getLast?_cons_cons]
+
+
 end PorepyVerif.C31
